@@ -901,6 +901,27 @@ fn gen_c03(o: &mut Out, r: &mut Rng, d: &GDict, tier: &str) {
             o.line(&format!("dec {}", hex(f)));
         }
     });
+    // text that is almost UTF-8: UTF-16 surrogates written as three octets each (CESU-8 pairs, lone halves), overlong forms,
+    // code points beyond U+10FFFF - in UTF8String and DiameterIdentity values, alone and inside otherwise good text
+    {
+        let bad: [&[u8]; 9] = [&[0xed, 0xa0, 0xbd, 0xed, 0xb8, 0x80], &[0xed, 0xa0, 0x80], &[0xed, 0xbf, 0xbf], &[0xc0, 0xaf], &[0xe0, 0x80, 0xaf], &[0xf0, 0x80, 0x80, 0xaf], &[0xf4, 0x90, 0x80, 0x80], &[0xf8, 0x88, 0x80, 0x80, 0x80], &[0xed, 0xaf, 0xbf, 0xed, 0xbf, 0xbf]];
+        for (bi, b) in bad.iter().enumerate() {
+            for ty in [T_UTF8, T_IDENT] {
+                for (pre, post) in [("", ""), ("ses;", ";2"), ("é", "世")] {
+                    let def = d.by_type(ty)[0].clone();
+                    let mut data = pre.as_bytes().to_vec();
+                    data.extend_from_slice(b);
+                    data.extend_from_slice(post.as_bytes());
+                    let mut m = header(r);
+                    m.avps.push(avp_of(r, d, d.by_type(T_U32)[0], 0, 0));
+                    // (the octets go out as they are: an OctetString value under the text definition's code)
+                    m.avps.push(GA { code: def.code, vendor: def.vendor, flags: 0x40, v: GV::Oct(data) });
+                    o.case(&format!("almost utf-8 kind={} ty={}", bi, ty_name(ty)));
+                    o.line(&format!("dec {}", hex(&m.encode(&mut None))));
+                }
+            }
+        }
+    }
     // the dictionary is replaced again and again by one that types the same AVP differently (the earlier dictionary
     // object is gone by then): a frame means what the dictionary in force says, not what an earlier one said
     {
@@ -1326,6 +1347,25 @@ fn lying_fixed_frames(r: &mut Rng, d: &GDict, n: usize) -> Vec<Vec<u8>> {
 
 fn gen_c04(o: &mut Out, r: &mut Rng, d: &GDict, tier: &str) {
     let thorough = tier == "thorough";
+    // the environment of the process (terminal width, locale) must not make decoding or displaying fail
+    for (name, value) in [("COLUMNS", "63"), ("COLUMNS", "64"), ("COLUMNS", "67"), ("COLUMNS", "71"), ("COLUMNS", "40"), ("COLUMNS", "3"), ("COLUMNS", "0"), ("COLUMNS", "wide"), ("LANG", "C"), ("LANG", "en_US"), ("LC_ALL", "POSIX"), ("LC_CTYPE", "de_DE@euro"), ("NO_COLOR", "1"), ("TERM", "dumb"), ("TZ", "America/New_York"), ("RUST_LOG", "trace")] {
+        o.case(&format!("environment {}={}", name, value));
+        o.line(&format!("env {} {}", name, value));
+        for _ in 0..(if thorough { 200 } else { 12 }) {
+            let m = message(r, d, 5, 3);
+            o.line(&format!("decq {}", hex(&m.encode(&mut None))));
+        }
+        // long names and text with characters of several octets
+        for code in [320u32, 15, 16] {
+            if let Some(def) = d.defs.iter().find(|x| x.code == code && x.vendor.is_none()) {
+                let mut m = header(r);
+                m.avps.push(GA { code: def.code, vendor: None, flags: 0x40, v: GV::Utf8("Gebühr-加入者-𝄞-€uro ".repeat(1 + (code as usize % 4))) });
+                m.avps.push(nest(d, r, 3, Some(GA { code: def.code, vendor: None, flags: 0, v: GV::Utf8("ß加é".repeat(9)) })));
+                o.line(&format!("decq {}", hex(&m.encode(&mut None))));
+            }
+        }
+        o.line(&format!("env {} -", name));
+    }
     // another thread is busy with the library's public process-wide default dictionary while frames with groups in groups
     // are decoded, displayed and re-encoded here: none of that may wait for it
     {
@@ -1891,6 +1931,8 @@ fn gen_c06(o: &mut Out, r: &mut Rng, d: &GDict, tier: &str) {
         o.case(&format!("stream frames={}", lens.join(",")));
         // baseline: everything in one delivery; one call more than there are frames (it meets the end of the stream)
         o.line(&format!("sdec {} d:{}", n + 1, hex(&stream)));
+        // ... and on a runtime without a time driver (the stream reader needs no timers)
+        o.line(&format!("sdecnt {} d:{}", n + 1, hex(&stream)));
         // one-octet dribble, with and without a pause before every octet
         let cuts: Vec<usize> = (1..stream.len()).collect();
         o.line(&format!("sdec {} {}", n + 1, chunks_to_events(&stream, &cuts)));
@@ -3023,7 +3065,8 @@ fn gen_c12(o: &mut Out, r: &mut Rng, d: &GDict, tier: &str, max_corpora: usize) 
                         rd.push("e".into());
                     }
                 }
-                let late = if p % 3 == 0 { (9000000 + p).to_string() } else { "-".to_string() };
+                // (`D`: the client object is dropped right after the sends; the reader task and the futures live on)
+                let late = if p % 3 == 0 { (9000000 + p).to_string() } else if p % 3 == 1 { "D".to_string() } else { "-".to_string() };
                 // `complete`: how many answers had arrived completely when the stream ended - no more futures than that may
                 // hold an answer (what arrived in part was not sent)
                 let complete = boundaries.iter().filter(|b| **b > 0 && **b <= p).count();
@@ -3276,7 +3319,8 @@ fn gen_c14(o: &mut Out, r: &mut Rng, tier: &str) {
                 5..=7 => {
                     let dl = rand_doc(r, codes, vendors);
                     o.lines(&dl);
-                    o.line("doc_end load");
+                    // (now and then the text starts with a byte-order mark, as a file saved "UTF-8 with BOM" reads)
+                    o.line(if r.chance(1, 4) { "doc_end load bom" } else { "doc_end load" });
                     docs.push(dl);
                 }
                 8 | 9 if !docs.is_empty() => {
@@ -3555,6 +3599,22 @@ fn gen_c16(o: &mut Out, r: &mut Rng, tier: &str, extra: &[String]) {
                 // first-in-key-order rule, and a name no live definition carries must fail
                 let ty = *r.pick(&[T_U32, T_UTF8, T_OCT, T_I32]);
                 o.line(&format!("dadd {} {} {} {} {}", r.pick(&codes), vend(*r.pick(&vendors)), hexd(r.pick(&names).as_bytes()), ty_name(ty), r.below(2)));
+                // a copy of the dictionary as it was a moment ago answers from what IT holds (an application keeps one for the
+                // messages in flight), the current one from what it holds now - in either order of asking
+                if r.chance(1, 3) {
+                    let (n1, n2) = (*r.pick(&names), *r.pick(&names));
+                    o.line("freeze");
+                    o.line(&format!("dadd {} {} {} {} {}", r.pick(&codes), vend(*r.pick(&vendors)), hexd(format!("Only-New-{}", r.below(3)).as_bytes()), ty_name(T_U32), r.below(2)));
+                    for n in [n1, "Only-New-0", n2, "Only-New-1"] {
+                        if r.chance(1, 2) {
+                            o.line(&format!("parname 1 {}", hexd(n.as_bytes())));
+                            o.line(&format!("fbyname {}", hexd(n.as_bytes())));
+                        } else {
+                            o.line(&format!("fbyname {}", hexd(n.as_bytes())));
+                            o.line(&format!("parname 1 {}", hexd(n.as_bytes())));
+                        }
+                    }
+                }
                 // the dictionary object is fresh now: several threads look names up in it at the same moment
                 for n in names.iter().take(2) {
                     o.line(&format!("parname 8 {}", hexd(n.as_bytes())));
@@ -3671,7 +3731,15 @@ fn gen_c16(o: &mut Out, r: &mut Rng, tier: &str, extra: &[String]) {
                 0 => String::new(),
                 1 => { let n = &names[k % names.len()]; let ws = *r.pick(&[" ", "\t", "\n", "\r\n", "\u{a0}"]); if r.chance(1, 2) { format!("{}{}", n, ws) } else { format!("{}{}", ws, n) } }
                 2 => names[k % names.len()].to_lowercase() + "x",
-                3 => if r.chance(1, 2) { format!("No-Such-{}", r.below(100000)) } else { r.pick(&["Origin-Host", "Session-Id", "User-Name", "Result-Code", "Origin-Realm", "CC-Request-Type", "Host-IP-Address"]).to_string() },
+                3 => match r.below(3) {
+                    0 => format!("No-Such-{}", r.below(100000)),
+                    1 => r.pick(&["Origin-Host", "Session-Id", "User-Name", "Result-Code", "Origin-Realm", "CC-Request-Type", "Host-IP-Address"]).to_string(),
+                    // a spelling variant of a name the dictionary has: another prefix for the same stem
+                    _ => {
+                        let n = &names[k % names.len()];
+                        if let Some(rest) = n.strip_prefix("3GPP") { format!("TGPP{}", rest) } else if let Some(rest) = n.strip_prefix("TGPP") { format!("3GPP{}", rest) } else { format!("3GPP-{}", n) }
+                    }
+                },
                 4 => names[k % names.len()][..names[k % names.len()].len().saturating_sub(1)].to_string(),
                 5 => {
                     // a name that looks like a number: the decimal code of a definition, with or without decoration
